@@ -350,7 +350,7 @@ func TestP1Font(t *testing.T) {
 	rec := ev.New("C19", "font")
 	defer rec.Finish(t)
 	rec.Rule("type1.Font values: 0-12 glyphs with or without .notdef; names with shared prefixes; encodings absent, shorter than 256, full, naming missing glyphs, the same glyph at several codes; command lists incl. empty, only moves, curves whose control points lie far outside the box of the end points, stray closepaths; axis-aligned font matrices incl. negative, zero and non-1/1000 scales and translations; queried names present and absent. Oracle: independent re-computation - GlyphList is a permutation of glyphs plus .notdef, starts with .notdef, then the encoded glyphs such that some choice of one code per glyph is strictly increasing, then the rest strictly increasing by name, length == NumGlyphs; glyph boxes = min/max over end points (through matrix x 1000 for the PDF variants, 1e-9 relative), zero for missing/empty glyphs; font boxes = union of the non-zero glyph boxes; widths = WidthX x M[0] x 1000, per-glyph call == width map exactly, .notdef width or 0 for absent names. Non-trivial: >= 3 glyphs, >= 1 encoded and >= 1 unencoded, >= 1 non-empty outline; distinct by font value.")
-	ev.SetupRapid(20000, 1280000)
+	ev.SetupRapid(150000, 6000000)
 	rapid.Check(t, func(t *rapid.T) {
 		f := &type1.Font{FontInfo: &type1.FontInfo{FontName: "Q"}, Private: &type1.PrivateDict{}, Glyphs: map[string]*type1.Glyph{}}
 		f.FontMatrix = genMatrix(t)
@@ -417,7 +417,7 @@ func TestP2Metrics(t *testing.T) {
 	rec := ev.New("C19", "metrics")
 	defer rec.Finish(t)
 	rec.Rule("afm.Metrics values: 0-12 glyphs with or without .notdef, well-formed boxes (LL <= UR) incl. zero and degenerate boxes, encodings as for fonts. Oracle: the same glyph-list predicate and NumGlyphs, FontBBoxPDF = union of the non-zero boxes, GlyphWidthPDF = width, .notdef width or 0. Non-trivial: >= 3 glyphs, >= 1 encoded and >= 1 unencoded; distinct by value.")
-	ev.SetupRapid(10000, 480000)
+	ev.SetupRapid(60000, 2400000)
 	rapid.Check(t, func(t *rapid.T) {
 		m := &afm.Metrics{Glyphs: map[string]*afm.GlyphInfo{}}
 		n := rapid.IntRange(0, 12).Draw(t, "nglyphs")
